@@ -21,10 +21,11 @@ from .trace import deep
 
 ALLOWED_STATE = {"Datastore": {"logger", "bucket_instances", "storage_strategy"}, "Bucket": {"logger", "ds", "bucket_id"}}
 READS = {"Bucket": ["metadata", "get", "get_by_id", "get_eventcount"], "Datastore": ["buckets"]}
+WRITES = {"Bucket": ["insert", "delete", "replace", "replace_last"], "Datastore": ["create_bucket", "update_bucket", "delete_bucket"]}
 STORAGE = ("self.ds.storage_strategy", "self.storage_strategy")
 
 
-def wrapper_rules(prog, rep, rule="WRAP", parts=("state", "reads", "arguments", "purity"), arg_skip=()):
+def wrapper_rules(prog, rep, rule="WRAP", parts=("state", "reads", "reaches", "arguments", "purity"), arg_skip=()):
     rep.rule(rule, "Datastore / Bucket keep no state besides the handle table, return what the storage returned, hand their arguments to the storage unchanged (window rounding and the `created` default aside) and do not write into the objects they are given")
     for cname in ("Datastore", "Bucket"):
         ci = prog.cls(cname)
@@ -67,6 +68,22 @@ def wrapper_rules(prog, rep, rule="WRAP", parts=("state", "reads", "arguments", 
                         ok = False
                         why = f"`{norm(r)[:80]}` does not return the storage's answer as it is"
                 rep.check(ok, rule, fi.short, "returns the storage's answer", "return <storage call>", f"{why}: what a reader gets is no longer what the storage holds (a cached, filtered or re-built value)", fi.loc())
+        # ---- reaches: an operation is handed to the storage on every path that returns normally
+        if "reaches" in parts:
+            from .cfg import cfg_of
+
+            for mname in WRITES[cname]:
+                fi = ci.methods.get(mname)
+                if fi is None:
+                    continue
+                g = cfg_of(fi)
+                calls = {g.node_of(c) for c in prog.all_calls(fi) if isinstance(c.func, ast.Attribute) and norm(c.func.value) in STORAGE}
+                if not calls:
+                    rep.violation(rule, fi.short, "reaches the storage", f"{fi.short} never calls the storage: the operation is not carried out", fi.loc())
+                    continue
+                skipped = g.exit in g.reach_avoiding([g.entry], avoid=frozenset(calls), include_start=True, skip_exc=True)
+                w = g.witness(g.entry, g.exit, avoid=frozenset(calls)) if skipped else None
+                rep.check(not skipped, rule, fi.short, "reaches the storage", "every normally returning path passes through the storage call", f"{fi.short} can return normally without having called the storage (e.g. an early return for a falsy id: 0 is a valid event id in the memory store): the caller is told the operation happened, the store is unchanged", fi.loc(), found=g.describe_path(w) if w else None)
         # ---- arguments
         if "arguments" in parts:
             for fi in ci.methods.values():
